@@ -53,12 +53,26 @@ JudgeCall(e) ==
              <<"post-accept-admits-ofx", HasSub(p.accept, OFXMIME) \/ HasSub(p.accept, STARSTAR)>>,
              <<"post-user-agent", p.ua = env.useragent[e.client]>> >>]))
 
+\* two institutions hosted by one provider: the same host, port, path, ORG and FID - only the query string tells them apart;
+\* each client's profile request goes to ITS configured URL and its credentials to the URL ITS profile advertises
+JudgeTenant(e) ==
+  FlattenSeq([i \in 1..Len(e.posts) |->
+     LET p == e.posts[i]
+         c == Classify(p.file, e.userid, e.password) IN
+     << <<"tenant-post-is-ofx-request", c.ok>>,
+        <<"tenant-profile-goes-to-own-configured-url", c.kind = "profile" => p.host = "cfg-" \o e.tenant>>,
+        <<"tenant-credentials-go-to-own-service-url", c.creds = "user" => p.host = "svc-" \o e.tenant>>,
+        <<"tenant-profile-is-anonymous", (c.kind = "profile") <=> (c.creds = "anon")>> >>]) \o
+  << <<"tenant-call-made-its-request", \E i \in 1..Len(e.posts) : Classify(e.posts[i].file, e.userid, e.password).creds = "user">> >>
+
 Init == l = 1 /\ env = [none |-> 0] /\ st = [none |-> 0]
 Next == /\ l <= Len(Log)
         /\ LET e == Log[l] IN
            IF e.op = "env"
            THEN /\ env' = e
                 /\ st' = [jar |-> [c \in {"c1", "c2", "c3"} |-> [h \in Hosts |-> 0]], issued |-> <<>>, next |-> 1, sent |-> <<>>]
+           ELSE IF e.op = "tcall"
+           THEN Report(e.id, JudgeTenant(e)) /\ UNCHANGED <<st, env>>
            ELSE /\ Report(e.id, JudgeCall(e))
                 /\ st' = Posts(st, e.client, e.kind, e.mode, env.adv, env.sets, NoP) /\ UNCHANGED env
         /\ l' = l + 1
